@@ -8,7 +8,7 @@ TRUSTED_EXTRA = [
     "C12: numpy broadcasting, einsum and the ndarray subclass protocols are external; the alignment/dispatch logic of FeArray is validated against explicit (e, p) loops on every run, not proved",
 ]
 ASSUMPTIONS = [
-    "theorems cover the closed-form Det/Inv/Trace formulas, the einsum subscripts of dot/ddot/TensorProd and the axis rule of reductions; alignment (_align), __wrap typing and broadcast() are checked by the harness only",
+    "theorems cover the closed-form Det/Inv/Trace formulas, the einsum subscripts of dot/ddot/TensorProd and the axis rule of reductions and the decision list of broadcast() (translated: which leading shape is read as a constant / per element / per point / full field); that numpy's broadcast_to then reads the values that way, alignment (_align) and __wrap typing are checked by the harness only",
 ]
 
 
